@@ -28,6 +28,8 @@ for m in sorted(glob.glob(os.path.join(V, "seeded", "*", "meta.json"))):
                 what = re.sub(r"[*`|]", "", line)[:150]; break
     det = j.get("detection") or {}
     caught = ", ".join("%s%s" % (k, "" if v.get("detected") else " (missed)") for k, v in sorted(det.items())) or "not run yet"
+    if j.get("status_on_head"):
+        caught += " - " + j["status_on_head"][:160]
     rows.append("| %s | %s | %s |" % (sid, what, caught))
 block("seeded", "| seeded | change (first line of its notes.md) | run against -> result |\n|---|---|---|\n" + "\n".join(rows))
 
